@@ -71,3 +71,11 @@ type Backend interface {
 	// This implicitly unlocks the store if any locks are held.
 	Close() error
 }
+
+// Remover is an optional capability of a Backend: removing data at given path.
+// KeyStore uses it to clean up temporary files left behind by interrupted updates.
+type Remover interface {
+	// Remove data at given path.
+	// Returns ErrNotExist if path does not exist.
+	Remove(path string) error
+}
